@@ -227,8 +227,8 @@ func genC18(t *rapid.T) c18Case {
 	{
 		var blk []kv
 		alloc := rapid.Bool().Draw(t, "alloc")
-		if target == "ue_ip_pool" {
-			alloc = true
+		if target == "ue_ip_pool" && !p4 {
+			alloc = true // on BESS the pool is only consumed when the UP allocates addresses; UP4 always needs it
 		}
 		if alloc {
 			exp.CPIface.EnableUeIPAlloc = true
